@@ -314,12 +314,21 @@ impl Probe {
             if self.entered.load(Ordering::SeqCst) == req {
                 match self.sleeping() {
                     Some(true) => {
-                        // twice, to be sure
-                        std::thread::sleep(Duration::from_micros(100));
-                        if self.done.load(Ordering::SeqCst) == req {
-                            return false;
+                        // a lock held by a PARKED worker stays held: require the prober to stay asleep over a
+                        // window of 12 ms (a running thread that merely passes through the lock, or is
+                        // descheduled for a moment while holding it, lets the prober through well within that)
+                        let mut still = true;
+                        for _ in 0..12 {
+                            std::thread::sleep(Duration::from_millis(1));
+                            if self.done.load(Ordering::SeqCst) == req {
+                                return false;
+                            }
+                            if self.sleeping() != Some(true) {
+                                still = false;
+                                break;
+                            }
                         }
-                        if self.sleeping() == Some(true) && self.done.load(Ordering::SeqCst) != req {
+                        if still && self.done.load(Ordering::SeqCst) != req {
                             return true;
                         }
                     }
